@@ -34,11 +34,14 @@ G16Step == /\ ~done /\ NClosed < MaxClosed
            /\ \E i \in Instr, p \in PnLs, c \in Costs : AddClosed(i, p, c)
            /\ hist' = Append(hist, Rec16)
            /\ UNCHANGED done
+\* (draws are bound through singleton sets: a RandomElement inside a LET / argument position may be
+\*  re-drawn at every reference - notes/HOWTO.md "TLC pitfalls")
 G16StepR == /\ ~done /\ Len(hist) < MaxClosed
-            /\ LET r == RandomElement(1..10)
-               IN IF r <= 6 THEN AddClosed(RandomElement(Instr), RandomElement(PnLs), RandomElement(Costs))
-                  ELSE IF r <= 8 THEN AddBalance(RandomElement(Asset), RandomElement(Bals))
-                  ELSE Generate
+            /\ \E r \in {RandomElement(1..10)}, i \in {RandomElement(Instr)}, p \in {RandomElement(PnLs)},
+                  c \in {RandomElement(Costs)}, a \in {RandomElement(Asset)}, b \in {RandomElement(Bals)} :
+                 IF r <= 6 THEN AddClosed(i, p, c)
+                 ELSE IF r <= 8 THEN AddBalance(a, b)
+                 ELSE Generate
             /\ hist' = Append(hist, Rec16)
             /\ UNCHANGED done
 G16Finish  == /\ ~done /\ NClosed = MaxClosed /\ done' = TRUE
@@ -54,7 +57,7 @@ G17Step == /\ ~done /\ Len(vals) < MaxVals
            /\ hist' = Append(hist, Rec17)
            /\ UNCHANGED done
 G17StepR == /\ ~done /\ Len(vals) < MaxVals
-            /\ AddValue(RandomElement(Vals))
+            /\ \E x \in {RandomElement(Vals)} : AddValue(x)
             /\ hist' = Append(hist, Rec17)
             /\ UNCHANGED done
 G17Finish == /\ ~done /\ Len(vals) = MaxVals /\ done' = TRUE
@@ -67,7 +70,7 @@ Emit17 == done => PrintT(<<"SCN", ToJson([vals |-> hist])>>)
 
 \* value sets (a .cfg file cannot write negative numbers)
 PnLsQuick == {-2, -1, 0, 1, 3}
-PnLsWide  == {-7, -3, -2, -1, 0, 1, 2, 3, 5, 12}
+PnLsWide  == {-300, -7, -3, -2, -1, 0, 1, 2, 3, 5, 12, 250}
 ValsQuick == {-3, -1, 0, 2, 1000}
 ValsWide  == (-20..20) \cup {500, -499, 137, 64}
 =============================================================================
